@@ -282,35 +282,40 @@ def _get_path(grid, obj, paths):
         return NOT_FOUND
 
 
-def _generate_filter_in_python(node, def_filter):
+def _generate_filter_in_python(node, def_filter, literals):
     if isinstance(node, FilterPath):
         def_filter.append("_get_path(_grid, _entity, %s)" % node.path)
     elif isinstance(node, FilterBinary):
         def_filter.append("(")
-        def_filter.extend(_generate_filter_in_python(node.left, []))
+        def_filter.extend(_generate_filter_in_python(node.left, [], literals))
         def_filter.append(" " + node.op + " ")
-        def_filter.extend(_generate_filter_in_python(node.right, []))
+        def_filter.extend(_generate_filter_in_python(node.right, [], literals))
         def_filter.append(")")
     elif isinstance(node, FilterUnary):
         if node.op == "has":
             def_filter.append('(id(')
-            def_filter.extend(_generate_filter_in_python(node.right, []))
+            def_filter.extend(_generate_filter_in_python(node.right, [], literals))
             def_filter.append(') !=  id(NOT_FOUND))')
         elif node.op == "not":
             def_filter.append('(id(')
-            def_filter.extend(_generate_filter_in_python(node.right, []))
+            def_filter.extend(_generate_filter_in_python(node.right, [], literals))
             def_filter.append(") == id(NOT_FOUND))")
         else:  # pragma: no cover
             assert 0
     else:
-        def_filter.append(repr(node))
+        # A literal is data: it is handed to the generated function as an
+        # argument, its text never becomes part of the generated source.
+        literals.append(node)
+        def_filter.append("_literals[%d]" % (len(literals) - 1))
     return def_filter
 
 
 class _FnWrapper():
-    def __init__(self, fun_name, function_template):
+    def __init__(self, fun_name, function_template, literals=None):
         self.fun_name = fun_name
         exec(function_template, globals(), globals())
+        if literals is not None:
+            globals()[fun_name].__defaults__ = (tuple(literals),)
 
     def __del__(self):  # pragma: no cover
         del globals()[self.fun_name]  # Remove generated function if the LRU ask that
@@ -321,11 +326,12 @@ class _FnWrapper():
 @lru_cache(maxsize=FILTER_CACHE_LRU_SIZE)
 def _filter_function(filter):
     global _id_function
-    def_filter = _generate_filter_in_python(parse_filter(filter)._head, [])
+    literals = []
+    def_filter = _generate_filter_in_python(parse_filter(filter)._head, [], literals)
     fun_name = "_gen_hsfilter_" + str(_id_function)
-    function_template = "def %s(_grid, _entity):\n  return " % fun_name + "".join(def_filter)
+    function_template = "def %s(_grid, _entity, _literals=()):\n  return " % fun_name + "".join(def_filter)
     _id_function += 1
-    return _FnWrapper(fun_name, function_template)
+    return _FnWrapper(fun_name, function_template, literals)
 
 
 def filter_function(filter):
